@@ -6,7 +6,10 @@ NAMES = ['bnd:C04.update.total', 'bnd:C04.code', 'bnd:C04.equals_fresh_parse', '
 
 KEYS = ['parso.python.diff._update_positions', 'parso.python.diff._is_indentation_error_leaf',
         'parso.python.diff._get_previous_leaf_if_indentation', 'parso.python.diff._get_next_leaf_if_indentation',
-        'parso.python.diff._skip_dedent_error_leaves', 'parso.python.diff._ends_with_newline', 'parso.python.diff._get_last_line']
+        'parso.python.diff._skip_dedent_error_leaves', 'parso.python.diff._ends_with_newline', 'parso.python.diff._get_last_line',
+        # copy conditions, helper by helper
+        'parso.python.diff._flows_finished', 'parso.python.diff._func_or_class_has_suite',
+        'parso.python.diff._suite_or_file_input_is_valid', 'parso.python.diff._is_flow_node']
 
 
 def run(report):
